@@ -1,5 +1,5 @@
 ENGINES = [
-    {"name": "E1-enum", "path": "/verif/cmd, /verif/internal", "serves_properties": ["C12", "C16", "C18"],
+    {"name": "E1-enum", "path": "/verif/cmd, /verif/internal", "serves_properties": ["C06", "C08", "C12", "C13", "C16", "C18"],
      "kind_free_text": "bounded-exhaustive enumerator over explicit alphabets, every case executed on the real code and judged by a Go reference model"},
 ]
 NOTES = "All checks: ./run.sh <id> quick|thorough rebuilds the harness against /repo's working tree (replace directive) and rewrites evidence/<id>.json. known_findings.json is read-only at run time."
@@ -22,4 +22,23 @@ CHECKS["C18"] = dict(
     technique="all ordered pairs of an enumerated pool of JSON texts through json.Equal against an exact reference value model; all truncations/extensions for the malformed half",
     text="Every ordered pair of ~2k (quick) / ~5k (thorough) JSON texts (number spellings incl. beyond 2^53 and huge exponents, escaped vs literal strings, permuted / padded composites up to depth 2) is compared with json.Equal and with an exact reference (decimal numbers, sorted members, UTF-16 units). Agreement on all pairs implies the equivalence laws on the set; reflexivity/symmetry/transitivity counterexamples are extracted when it fails. Every proper prefix and 18 one-byte extensions of each text must never compare equal without error. Duplicate-enum detection in jsonschema is checked on all pairs of the leaf pool.",
     note="Trusted: internal/jsonref (strict RFC 8259 parser), cross-checked for well-formedness against encoding/json. Objects with duplicate member names and lone surrogates are outside the domain.",
+)
+
+CHECKS["C13"] = dict(
+    category="exploration", engine="E1-enum",
+    technique="exhaustive enumeration of small value domains (all 8/16-bit integers, all finite float32 bit patterns, every calendar day and time of day) and structured-exhaustive enumeration of wide ones, through every conv/json text pair",
+    text="Every conv TToString/ToT pair and every json Encode*/Decode* pair is driven with v -> text -> v': equality, no error, no panic, text in the format's syntax. Exhaustive where the type allows (bool, int8/16, uint8/16, 86 400 times of day, 3.65 M calendar days, in the thorough tier all 4.26e9 finite float32 values and all zone/clock combinations); structured elsewhere (every 2^k and 10^k with neighbours, every (sign, exponent) x mantissa pattern for float64, unit boundaries for durations, single-byte sweeps for UUID/MAC, masks for IPv6, component products for URLs).",
+    note="Trusted: Go's strconv/time/netip/url parsers as the inverse direction. 32/64-bit integers, float64, unix timestamps, UUID, IP, URL are structured samples of their domain, not exhaustive; values a format cannot represent (NaN/Inf, years outside 0000-9999, sub-minute zone offsets) are outside the domain.",
+)
+CHECKS["C08"] = dict(
+    category="exploration", engine="E1-enum",
+    technique="bounded-exhaustive enumeration of pattern ASTs x subject strings against a reference ECMA-262 backtracking matcher, cross-checked with regexp2",
+    text="All patterns of one term and (bounded) two/three terms over 89 atoms (every escape, class form, anchor, group, look-around, back-reference) x 12 quantifiers plus five wrappers, against every subject of <= 2 (<= 3 for short patterns) code points over a 26-symbol alphabet (ASCII, line terminators, ECMAScript-only whitespace, BMP, astral): ogenregex.Compile(p).MatchString(s) must equal the reference matcher; alarm only when regexp2 agrees with the reference. Also: String() == source, look-around/back-references never run on RE2, compile errors only for patterns regexp2 rejects too.",
+    note="Trusted: internal/ecma (716-line reference matcher written from the ECMA-262 grammar, no Annex B) and regexp2 as second oracle; evaluations where the two oracles disagree are counted as oracle_disputed (all of them are in fallback patterns, where ogen is regexp2). Longer patterns/subjects than the bound are not explored.",
+)
+CHECKS["C06"] = dict(
+    category="exploration", engine="E1-enum",
+    technique="complete enumeration of the admitted (in, style, explode, shape) cells (decided by the real parser+generator) x bounded-exhaustive values over a delimiter alphabet, against a reference serializer; exhaustive byte strings for cookie escaping",
+    text="The 37 cells the real ogen.Parse + gen.NewGenerator admit (168 candidates probed on every run) are each driven with all strings <= 2/3 over 18 symbols as primitives, arrays of 0-3 items and objects of 0-2 fields with adversarial names through exactly the calls generated code makes (uri encoders -> net/url, net/http -> uri decoders). Core values must be accepted, serialized as the OpenAPI/RFC 6570 table prescribes and decoded unchanged; any value must be refused, rejected or delivered unchanged; values containing the active delimiter must be refused by the encoder; no panic. escapeCookie/unescapeCookie are checked on all byte strings <= 2/3 over all 256 bytes (through a build-time overlay export).",
+    note="Trusted: the reference serializer in cmd/c06, net/url and net/http as transport. Unexported cookie escapers are reached through a go build -overlay file (cmd/c06/overlay), /repo is untouched. Two known findings: [] vs [\"\"] share a wire form in joined array serializations.",
 )
